@@ -737,7 +737,12 @@ class ItemGrader(AbstractGrader):
             self.log("Expect value inferred to be {}".format(output))
 
             # Validate the answers, including post-schema answer validation
-            answers = self.post_schema_ans_val(self.schema_answers(inferred))
+            try:
+                answers = self.post_schema_ans_val(self.schema_answers(inferred))
+            except Exception:
+                # The debug log created above belongs to this failed call only
+                self.log_created = False
+                raise
 
             # Store the answers only once they are fully validated, so that a bad
             # expect value cannot leave half-validated answers behind.
@@ -749,7 +754,12 @@ class ItemGrader(AbstractGrader):
             self.inferring_answers = True
 
         # And punt the actual __call__ function to the superclass
-        return super(ItemGrader, self).__call__(expect, student_input, **kwargs)
+        try:
+            return super(ItemGrader, self).__call__(expect, student_input, **kwargs)
+        finally:
+            # If the call failed before the superclass took over the debug log created
+            # above (e.g. non-text input), make sure the next call starts a new log
+            self.log_created = False
 
     def infer_from_expect(self, expect):
         """
